@@ -54,6 +54,8 @@ def gen_panics():
                         t = m.group(0)
                         if re.match(r"^\w\[\s*\]$", t) or re.search(r"\[\s*u8\s*\]|\[\s*T\s*\]", t):
                             continue  # slice types such as &'a [u8]
+                        if re.search(r"\[\s*\.\.\s*\]$", t):
+                            continue  # the full range `x[..]` cannot panic
                         # `where`-clauses and generics do not index; array types `[u8; N]` contain ';' and are excluded by the pattern
                     fn = "<top>"
                     for pos, name in fns:
